@@ -19,3 +19,25 @@ package util
 //@   requires b != nil
 //@   assigns b.index
 //@   ensures b.index == ite(index, 1, 0)
+
+// ---------------------------------------------------------------- C35 client address allow-list
+// net.IPNet.Contains and net.IP.Equal as uninterpreted predicates (trusted standard library: prefix match and
+// address equality, IPv4 and IPv4-mapped IPv6 forms compared alike, are net's own semantics)
+//@ pure netContains(base net.IP, mask net.IPMask, ip net.IP) bool
+//@ pure ipEqual(a net.IP, b net.IP) bool
+//@ trusted (*net.IPNet).Contains
+//@   params n, ip
+//@   pure-call
+//@   ensures ret0 <==> netContains(n.IP, n.Mask, ip)
+//@ trusted (net.IP).Equal
+//@   params ip, x
+//@   pure-call
+//@   ensures ret0 <==> ipEqual(ip, x)
+// an allow-list entry matches an address: CIDR entries by containment, plain entries by equality
+//@ pure entryMatches(e IPInfo, ip net.IP) bool = ite(e.isIPNet, netContains(e.ipNet.IP, e.ipNet.Mask, ip), ipEqual(e.ip, ip))
+
+//@ property C35: (*IPInfo).Match
+//@ func (*IPInfo).Match
+//@   requires t != nil
+//@   assigns \nothing
+//@   ensures ret0 <==> ite(t.isIPNet, netContains(t.ipNet.IP, t.ipNet.Mask, ip), ipEqual(t.ip, ip))
